@@ -228,3 +228,8 @@ k("nashmtl-cap-where", ["C19", "C11"], A + "nash_mtl.py", "            if norm >
   "            alpha = alpha * torch.where(norm > self.max_norm, self.max_norm / norm, 1.0)\n")
 # TrimmedMean through two partial selections (see seeded_keep/C16-r7K2): the twin that trims on one side only
 b("trimmedmean-topk-wrong-side", ["C16"], "@seed", _os.path.join(_PD, "trimmedmean-topk-wrong-side.diff"), "", "keeps the m - 2b smallest entries of every column")
+# TensorDict checks declared as tables (see seeded_keep/C14-r7K1): the twin in which Jacobians lost its dictionary-level check
+b("tensordict-tables-jacobians-no-dict-check", ["C14"], "@seed", _os.path.join(_PD, "tensordict-tables-jacobians-no-dict-check.diff"), "", "values with different first dimensions are accepted")
+# graph walk that classifies nodes when they are discovered (see seeded_keep/C12-r7K1): the twin whose roots are scheduled unclassified
+k("walker-roots-not-classified", ["C12"], "@seed", _os.path.join(_PD, "walker-roots-not-classified.diff"), "", "roots are grad_fn nodes of non-leaf tensors, never leaf accumulators: scheduling them unclassified changes nothing")
+b("walker-children-not-classified", ["C12"], "@seed", _os.path.join(_PD, "walker-children-not-classified.diff"), "", "leaf accumulators are scheduled, popped and never collected")
